@@ -1,7 +1,7 @@
 SPECIFICATION Spec
 CONSTANTS
   MaxOps = 4
-  Dev = {}
+  Dev = {"SharedDefault"}
 INVARIANT SlotsTyped
 INVARIANT FailedAssignIsNoOp
 INVARIANT FreshStartsEmpty
